@@ -175,7 +175,9 @@ static const struct { int sel; const char* s; } NAMES[] = {
     /* content classes used for single operations only (index >= 11): dot components, doubled separators, the empty string and the root, bytes
        that mean something to shells, C strings or UTF-8 decoders */
     {0, "./a"}, {0, "d/../a"}, {0, "d//a"}, {0, "d/./a"}, {0, "a/."}, {0, "d/."}, {0, "d/.."}, {0, "."}, {0, ".."}, {0, "/"}, {0, "d/"}, {0, "d//"},
-    {0, "a b"}, {0, "-x"}, {0, "a\\b"}, {0, "*"}, {0, "\xc3\xa9"}, {0, "\xff\xfe"}, {0, "%s%n"}, {0, "d/a/"}, {0, "./"}, {0, "d/../d/a"}, {1, "../a"}, {1, "."}, {1, "./a"}};
+    {0, "a b"}, {0, "-x"}, {0, "a\\b"}, {0, "*"}, {0, "\xc3\xa9"}, {0, "\xff\xfe"}, {0, "%s%n"}, {0, "d/a/"}, {0, "./"}, {0, "d/../d/a"}, {1, "../a"}, {1, "."}, {1, "./a"},
+    /* selector 2: descriptor 5 = the directory "d" opened WITHOUT the directory open flag (a plain open of a directory is valid) */
+    {2, "a"}, {2, "n"}, {2, "../a"}};
 
 static void nameFor(int idx, const char* base, char* guest, char* host, size_t cap) {
     const char* s = NAMES[idx].s;
@@ -206,12 +208,13 @@ static void e2(char* history) {
     if (!wasiInit(1, argv0, envp0) || !wasiFileDescriptorAdd(-1, dirA, &pre) || pre != 3) _exit(71);
     hx_put(NP, "d", 1);
     if (NS(0, path_open)(I, 3, 1, NP, 1, TW_O_DIRECTORY, TW_RIGHT_FD_READDIR, ~0ull, 0, RES) != 0 || hx_u32(RES) != 4) { fprintf(hx_out, "HARNESS-ERROR cannot open d\n"); fflush(hx_out); _exit(71); }
+    if (NS(0, path_open)(I, 3, 1, NP, 1, 0, TW_RIGHT_FD_READDIR, ~0ull, 0, RES) != 0 || hx_u32(RES) != 5) { fprintf(hx_out, "HARNESS-ERROR cannot open d without the directory flag\n"); fflush(hx_out); _exit(71); }
     for (step = 0; step < n && !failed; step++) {
         char* f[6];
         char det[200] = "";
         const char* name = "?";
         int nf = (curStep = step, hx_split(ops[step], ',', f, 6)), ns = atoi(f[nf - 1]), i1 = atoi(f[1]), i2 = nf > 3 ? atoi(f[2]) : 0, terr = 0;
-        U32 e = 0, fd1 = NAMES[i1].sel ? 4 : 3, fd2 = NAMES[i2].sel ? 4 : 3, strayAt;
+        U32 e = 0, fd1 = NAMES[i1].sel ? 3 + NAMES[i1].sel : 3, fd2 = NAMES[i2].sel ? 3 + NAMES[i2].sel : 3, strayAt;
         struct stat st;
         errno = EXDEV;      /* environment: errno holds an unrelated stale value when a WASI call begins; no result may depend on it */
         nameFor(i1, dirA, ga, ha, sizeof ga); nameFor(i1, dirB, gb, hb, sizeof gb);
